@@ -262,7 +262,43 @@ def check_refactor(name):
     return 0
 
 
+def check_refactor_scratch(name):
+    """like check-refactor, on a scratch copy of HEAD (parallel-safe; /repo is not touched)"""
+    import tempfile
+    d = os.path.join(REFACTORS, name)
+    with open(os.path.join(d, "meta.json")) as f:
+        meta = json.load(f)
+    root = tempfile.mkdtemp(prefix="hpo-refactor-")
+    try:
+        sh("git -C /repo archive HEAD | tar -x -C %s" % root)
+        rc, out = sh(["patch", "-p1", "-s", "-i", os.path.join(d, "patch.diff")], cwd=root)
+        if rc:
+            print("patch does not apply:", out)
+            return 1
+        results = {}
+        for pid in ALL:
+            rc, out = sh([os.path.join(VERIF, "bin", "check"), pid, "--tier", "quick", "--no-evidence", "--root", root], cwd=VERIF)
+            lines = out.splitlines()
+            viol = [l for l in lines if l.startswith(pid + " ") and "VIOLATION" not in l and "obligations=" not in l]
+            summ = [l for l in lines if "obligations=" in l]
+            und = re.search(r"undecided=(\d+)", summ[-1]) if summ else None
+            results[pid] = {"rc": rc, "reports": viol[:6], "undecided": int(und.group(1)) if und else None}
+    finally:
+        shutil.rmtree(root, ignore_errors=True)
+    meta["checks"] = results
+    meta["alarms"] = sorted(p for p, r in results.items() if r["rc"] != 0)
+    meta["undecided"] = {p: r["undecided"] for p, r in results.items() if r["undecided"]}
+    meta["checked_at"] = time.strftime("%Y-%m-%dT%H:%M:%SZ", time.gmtime())
+    meta["checked_on"] = "scratch copy of HEAD with the patch applied"
+    with open(os.path.join(d, "meta.json"), "w") as f:
+        json.dump(meta, f, indent=1)
+    print(name, "alarms:", meta["alarms"], "undecided:", meta["undecided"])
+    return 0
+
+
 if __name__ == "__main__":
+    if sys.argv[1] == "check-refactor-scratch":
+        sys.exit(check_refactor_scratch(sys.argv[2]))
     if sys.argv[1] == "ingest":
         sys.exit(ingest(sys.argv[2], sys.argv[3], sys.argv[4]))
     elif sys.argv[1] == "ingest-refactor":
